@@ -816,6 +816,16 @@ lib.OPAQUE_ATTR[('HttpResp', 'content')] = lambda eng, st, o: V(BYTES, z3.Functi
     'http_resp_content', z3.IntSort(), z3.StringSort())(o.t))
 LIBM[('opaque:HttpResp', 'read')] = lambda eng, st, recv, args, kwargs, line: iter([(st, V(
     BYTES, z3.Function('http_resp_content', z3.IntSort(), z3.StringSort())(recv.t)))])   # aiohttp
+def _resp_json(eng, st, recv, args, kwargs, line):
+    """requests.Response.json(): the decoded body (any JSON value) or JSONDecodeError."""
+    v = z3.Const(eng.name('resp_json'), PV)
+    yield st, V(ANY, v)
+    # requests raises JSONDecodeError; aiohttp's ClientResponse.json() is modelled as raising its
+    # own ClientError family only (content-type mismatch) - assumption, aiohttp is not in reach
+    yield st.copy(), R('ClientError' if eng.cur_is_async else 'JSONDecodeError', line)
+
+
+LIBM[('opaque:HttpResp', 'json')] = _resp_json
 lib.OPAQUE_ATTR[('HttpResp', 'status')] = lambda eng, st, o: V(INT, resp_status(o.t))     # aiohttp
 LIBM[('opaque:WS', 'send_binary')] = lambda *a: _ws_send(*a)
 LIBM[('opaque:WS', 'send_bytes')] = lambda *a: _ws_send(*a)       # aiohttp ClientWebSocketResponse
